@@ -41,7 +41,9 @@ def tmpdir():
 
 
 DATELIKE = ['01.02.25', '10.11.12', '31.12.99', '29.02.24', '1.2.3', '01.02.2025', '5', '0', '-1', '1e3', 'True', 'None', 'nan', ' 7 ', '007', '1;2']
-SPECIAL = [';', '"', '\r', '\n', '\r\n', ',', "'", '\t', ' ', '﻿', ';;', '""', 'a;b', '"q"', 'x\ny', '\\']
+SPECIAL = [';', '"', '\r', '\n', '\r\n', ',', "'", '\t', ' ', '﻿', ';;', '""', 'a;b', '"q"', 'x\ny', '\\',
+           # characters that mean something at the start of a physical line in other tabular dialects
+           '#', '\n#', '\n# c\n', '\r\n#x', '\n;', '\n"', '\nid;name', '\n\n', '\n=1+1', '\n//', '\n-', '=', '@', '+', '--']
 text = st.one_of(
     st.text(alphabet=st.characters(blacklist_categories=('Cs',), blacklist_characters='\x00'), max_size=8),
     st.lists(st.one_of(st.sampled_from(SPECIAL), st.sampled_from(['a', 'B', 'é', '中', '1'])), max_size=5).map(''.join),
